@@ -111,10 +111,15 @@ def emit_unit(uspec, log=None):
             for f in fns:
                 c = em.fn_cname(f)
                 if rx and rx.startswith('sig:'):
-                    # select an overload / instantiation by its parameter types (stable under reordering of instantiations)
-                    sig = ', '.join(cxxast.qt(p) for p in cxxast.params_of(f))
-                    if not re.search(rx[4:], sig):
-                        continue
+                    # select an overload / instantiation by its parameter types (stable under reordering of
+                    # instantiations); `sig:qname:<regex>` matches the qualified name with its template arguments instead
+                    if rx.startswith('sig:qname:'):
+                        if not re.search(rx[10:], f.get('_qname') or ''):
+                            continue
+                    else:
+                        sig = ', '.join(cxxast.qt(p) for p in cxxast.params_of(f))
+                        if not re.search(rx[4:], sig):
+                            continue
                     em.__dict__.setdefault('sig_selected', {}).setdefault(rx, set()).add(c)
                 elif rx and not re.search(rx, c):
                     continue
